@@ -1,7 +1,8 @@
 """C03 - Backend circuit conversion preserves circuit semantics."""
 import os
 
-from translate import adapters, braket_adapter, cirq_adapter, qiskit_adapter
+from translate import (adapters, braket_adapter, braket_reverse, cirq_adapter, qasm_adapter, qiskit_adapter, qulacs_reverse, reverse_adapters,
+                       stim_adapter, tket_adapter)
 from vlib import fingerprint
 
 
@@ -22,17 +23,42 @@ def run(ctx):
         "translate/qiskit_adapter.py: the same for the Qiskit convert_gate / convert_circuit (qargs = controls then targets); "
         "validated by corr_C03_qiskit.py; CONTRACT: SXGate = SqrtX, PhaseGate = U1, UGate = U3, CXGate/CZGate/CCXGate controls "
         "first, to_matrix() little-endian in the gate's own qubit list",
-        "partial: only the Python paths of the Qulacs, Cirq, Braket and Qiskit forward adapters have theorems; the Rust "
+        "translate/qasm_adapter.py (symbolic evaluation of the f-string lines of the OpenQASM 3 exporter; CONTRACT: stdgates.inc "
+        "mnemonics, validated through qiskit.qasm3) and translate/stim_adapter.py (named-gate table of the Stim converter; "
+        "CONTRACT: stim.Tableau.from_named_gate), validated by corr_C03_qasm.py / corr_C03_stim.py",
+        "translate/tket_adapter.py (convert_circuit + convert_gate and circuit_from_tket; the `/ pi` and `* pi` parameter "
+        "scalings are kept symbolically; CONTRACT: OpType names, controls first, ANGLES IN HALF-TURNS, get_unitary() big-endian), "
+        "translate/braket_reverse.py (gate_from_braket incl. the U1/U2/U3 choice of the U branch; float equality with 0.0 and "
+        "np.pi / 2 is read as equality of reals), translate/reverse_adapters.py (the if/elif chains of circuit_from_qiskit and "
+        "circuit_from_cirq; CONTRACT: Qiskit instruction names, Cirq table keys and the classes Rx/Ry/Rz), "
+        "translate/qulacs_reverse.py (named-gate branches and the angle expressions of the rotation branch of "
+        "circuit_from_qulacs; CONTRACT: Qulacs gate names with their control/target lists, the matrix of a Qulacs rotation is "
+        "a library rotation matrix, cmath.phase meets AngleRecovery.phase_contract - a hypothesis of the theorem, shown "
+        "satisfiable); validated by corr_C03_tket.py, corr_C03_braket_rev.py, corr_C03_qiskit_rev.py, corr_C03_cirq_rev.py, "
+        "corr_C03_qulacs_rev.py",
+        "partial: only the Python paths of the Qulacs, Cirq, Braket, Qiskit, tket, OpenQASM and Stim (named gates) forward "
+        "converters and the named-gate branches of the Braket, Qiskit, Cirq, tket and Qulacs reverse converters (and the rotation-angle recovery of the latter) have theorems; the Rust "
         "convert_circuit, parametric and compiled circuits, UnitaryMatrix/Pauli/PauliRotation (the set transpilers in front of "
-        "the converters are covered by C01), the reverse conversions and the tket, Stim and OpenQASM adapters in "
-        "both directions are decided by the backend-simulator sweep (sweep_C03.py)",
+        "the converters are covered by C01), the matrix fallbacks of the reverse conversions, the Pauli / DenseMatrix branches of circuit_from_qulacs, qubit "
+        "numbering of multi-register backend circuits, and rotation gates at Clifford angles on their way to Stim "
+        "are decided by the backend-simulator sweep (sweep_C03.py)",
     ]
     ctx.translate("qulacs_adapter", adapters.emit, os.path.join(ctx.work, "gen"), os.path.join(ctx.work, "qulacsconv.json"))
     fingerprint.check(ctx, "packages/qulacs/quri_parts/qulacs/circuit/__init__.py", ["convert_parametric_circuit"])
     ctx.translate("cirq_adapter", cirq_adapter.emit, os.path.join(ctx.work, "gen"), os.path.join(ctx.work, "cirqconv.json"))
     ctx.translate("braket_adapter", braket_adapter.emit, os.path.join(ctx.work, "gen"), os.path.join(ctx.work, "braketconv.json"))
     ctx.translate("qiskit_adapter", qiskit_adapter.emit, os.path.join(ctx.work, "gen"), os.path.join(ctx.work, "qiskitconv.json"))
-    ctx.coq(["qulacsconv.v", "cirqconv.v", "braketconv.v", "qiskitconv.v"], ["C03.v"])
+    ctx.translate("qasm_exporter", qasm_adapter.emit, os.path.join(ctx.work, "gen"), os.path.join(ctx.work, "qasmconv.json"))
+    ctx.translate("stim_adapter", stim_adapter.emit, os.path.join(ctx.work, "gen"), os.path.join(ctx.work, "stimconv.json"))
+    ctx.coq(["qulacsconv.v", "cirqconv.v", "braketconv.v", "qiskitconv.v", "qasmconv.v", "stimconv.v"], ["C03.v"])
+    gen = os.path.join(ctx.work, "gen")
+    ctx.translate("tket_adapter", tket_adapter.emit_forward, gen, os.path.join(ctx.work, "tketconv.json"))
+    ctx.translate("tket_reverse", tket_adapter.emit_reverse, gen, os.path.join(ctx.work, "tketrev.json"))
+    ctx.translate("braket_reverse", braket_reverse.emit, gen, os.path.join(ctx.work, "braketrev.json"))
+    ctx.translate("qiskit_reverse", reverse_adapters.emit_qiskit, gen, os.path.join(ctx.work, "qiskitrev.json"))
+    ctx.translate("cirq_reverse", reverse_adapters.emit_cirq, gen, os.path.join(ctx.work, "cirqrev.json"))
+    ctx.translate("qulacs_reverse", qulacs_reverse.emit, gen, os.path.join(ctx.work, "qulacsrev.json"))
+    ctx.coq(["tketconv.v", "tketrev.v", "braketrev.v", "qiskitrev.v", "cirqrev.v", "qulacsrev.v"], ["C03_rev.v"])
     if os.path.exists(os.path.join(ctx.work, "qulacsconv.json")):
         ctx.harness("corr_C03.py", kind="corr")
     if os.path.exists(os.path.join(ctx.work, "cirqconv.json")):
@@ -41,4 +67,18 @@ def run(ctx):
         ctx.harness("corr_C03_braket.py", kind="corr")
     if os.path.exists(os.path.join(ctx.work, "qiskitconv.json")):
         ctx.harness("corr_C03_qiskit.py", kind="corr")
+    if os.path.exists(os.path.join(ctx.work, "qasmconv.json")):
+        ctx.harness("corr_C03_qasm.py", kind="corr")
+    if os.path.exists(os.path.join(ctx.work, "stimconv.json")):
+        ctx.harness("corr_C03_stim.py", kind="corr")
+    if os.path.exists(os.path.join(ctx.work, "tketconv.json")) and os.path.exists(os.path.join(ctx.work, "tketrev.json")):
+        ctx.harness("corr_C03_tket.py", kind="corr")
+    if os.path.exists(os.path.join(ctx.work, "braketrev.json")):
+        ctx.harness("corr_C03_braket_rev.py", kind="corr")
+    if os.path.exists(os.path.join(ctx.work, "qiskitrev.json")):
+        ctx.harness("corr_C03_qiskit_rev.py", kind="corr")
+    if os.path.exists(os.path.join(ctx.work, "cirqrev.json")):
+        ctx.harness("corr_C03_cirq_rev.py", kind="corr")
+    if os.path.exists(os.path.join(ctx.work, "qulacsrev.json")):
+        ctx.harness("corr_C03_qulacs_rev.py", kind="corr")
     ctx.harness("sweep_C03.py", timeout=1500)
